@@ -42,6 +42,10 @@ func applyReg(db *gorm.DB, pipeline string, r Reg, fn func(*gorm.DB)) error {
 	case "reg":
 		switch {
 		case r.Before != "" && r.After != "":
+			// both orders of the chain calls are used (which one is fixed by the registration itself)
+			if (int(r.Before[0])+int(r.After[0])+len(r.Name))%2 == 1 {
+				return p.After(r.After).Before(r.Before).Register(r.Name, fn)
+			}
 			return p.Before(r.Before).After(r.After).Register(r.Name, fn)
 		case r.Before != "":
 			return p.Before(r.Before).Register(r.Name, fn)
